@@ -277,6 +277,36 @@ func runB(r *Run, s *BSpec) error {
 		r.Violation(rf)
 	}
 
+	// the grammars are accepted ones by construction: a refusal by the tool is a violation
+	// (C04 has its own, more detailed handling)
+	if s.Post == nil && !replayOnly {
+		refusals := 0
+		for _, g := range res.Meta.Groups {
+			if len(g.Case) > 0 {
+				continue
+			}
+			for _, p := range g.Pkgs {
+				if !p.Refused {
+					continue
+				}
+				refusals++
+				if refusals > 2 {
+					continue
+				}
+				specB, _ := os.ReadFile(filepath.Join(r.Work, g.SpecFile))
+				spec, _ := gspec.FromJSON(specB)
+				text := ""
+				if spec != nil {
+					text = gspec.Print(spec, gspec.PrintOpts{StubCode: true, NoInit: true})
+				}
+				r.Logf("violation refused: pigeon %v refused a well-formed grammar (exit %d): %s\n   grammar:\n%s", p.Flags, p.Exit, trunc(p.Stderr, 500), indent(text))
+				r.Violation(&ReplayFile{Property: s.ID, Engine: "batch", Kind: "refused", RepoHead: head, Seed: r.Opt.Seed, Tier: r.Opt.Tier, Spec: specB, Grammar: text,
+					Variants: []batch.Variant{{Name: p.Variant, Flags: stripRecv(p.Flags)}}, Case: []byte(`{"entry":""}`),
+					Diff: fmt.Sprintf("pigeon %v refused a grammar that is well-formed by construction (exit %d): %s", p.Flags, p.Exit, trunc(p.Stderr, 600))})
+			}
+		}
+	}
+
 	// crashes / hangs
 	for _, cr := range res.Crashes {
 		handleCrash(r, s, res, cr)
@@ -363,6 +393,9 @@ func handleCrash(r *Run, s *BSpec, res *batch.Result, cr batch.Crash) {
 	}
 	if err := json.Unmarshal(cr.Current, &cur); err != nil || cur.Group >= len(res.Meta.Groups) {
 		r.Infra("shard %d died; current case unreadable", cr.Shard)
+		return
+	}
+	if strings.Contains(cr.Stderr, "DATA RACE") && len(r.violations) >= 3 {
 		return
 	}
 	if strings.Contains(cr.Stderr, "DATA RACE") {
